@@ -16,6 +16,7 @@ tuple-valued `if` over the variables it assigns.
 from __future__ import annotations
 
 import ast
+import os
 import hashlib
 import re
 import sys
@@ -49,14 +50,14 @@ def coq_type(t):
 
 
 def float_lit(v: float) -> str:
-    """Exact dyadic literal m * 2^e as (lit O m e)."""
+    """Exact dyadic literal m * 2^e as (lit OP m e)."""
     if v != v or v in (float('inf'), float('-inf')):
         raise Untranslatable("non-finite literal")
     if v == 0:
-        return "(lit O 0 0)"
+        return "(lit OP 0 0)"
     m, e = v.as_integer_ratio()   # m / e with e a power of two
     k = e.bit_length() - 1
-    return "(lit O (%d) (%d))" % (m, -k)
+    return "(lit OP (%d) (%d))" % (m, -k)
 
 
 class Fn:
@@ -78,7 +79,7 @@ class Fn:
             return txt
         if t == 'Z' and want == 'F':
             self.uses_T = True
-            return "(ofZ O %s)" % txt
+            return "(ofZ OP %s)" % txt
         _fail(node, "type mismatch: have %s want %s in %s" % (t, want, ast.dump(node)[:80]))
 
     def expr(self, n, env):
@@ -132,7 +133,7 @@ class Fn:
                     return ("(- %s)" % a[0], 'Z')
                 if a[1] == 'F':
                     self.uses_T = True
-                    return ("(neg O %s)" % a[0], 'F')
+                    return ("(neg OP %s)" % a[0], 'F')
             if isinstance(n.op, ast.Not) and a[1] == 'B':
                 return ("(negb %s)" % a[0], 'B')
             if isinstance(n.op, ast.Invert) and a[1] == 'B':
@@ -154,7 +155,7 @@ class Fn:
                     if a[1] == 'Z':
                         return ("(%s * %s)" % (a[0], a[0]), 'Z')
                     self.uses_T = True
-                    return ("(mul O %s %s)" % (a[0], a[0]), 'F')
+                    return ("(mul OP %s %s)" % (a[0], a[0]), 'F')
                 _fail(n, "power other than 2")
             if a[1] == 'Z' and b[1] == 'Z' and not isinstance(op, ast.Div):
                 m = {ast.Add: "+", ast.Sub: "-", ast.Mult: "*", ast.FloorDiv: "/", ast.Mod: "mod"}
@@ -165,7 +166,7 @@ class Fn:
                 m = {ast.Add: "add", ast.Sub: "sub", ast.Mult: "mul", ast.Div: "div"}
                 if type(op) in m:
                     self.uses_T = True
-                    return ("(%s O %s %s)" % (m[type(op)], self.promote(n, a, 'F'), self.promote(n, b, 'F')), 'F')
+                    return ("(%s OP %s %s)" % (m[type(op)], self.promote(n, a, 'F'), self.promote(n, b, 'F')), 'F')
             _fail(n, "binop %s on %s,%s" % (type(op).__name__, a[1], b[1]))
         if isinstance(n, ast.Compare):
             terms = []
@@ -213,9 +214,9 @@ class Fn:
         elif a[1] in ('Z', 'F') and b[1] in ('Z', 'F'):
             self.uses_T = True
             x, y = self.promote(n, a, 'F'), self.promote(n, b, 'F')
-            m = {ast.Lt: "(ltb O %s %s)" % (x, y), ast.LtE: "(leb O %s %s)" % (x, y),
-                 ast.Gt: "(ltb O %s %s)" % (y, x), ast.GtE: "(leb O %s %s)" % (y, x),
-                 ast.Eq: "(eqb O %s %s)" % (x, y), ast.NotEq: "(negb (eqb O %s %s))" % (x, y)}
+            m = {ast.Lt: "(ltb OP %s %s)" % (x, y), ast.LtE: "(leb OP %s %s)" % (x, y),
+                 ast.Gt: "(ltb OP %s %s)" % (y, x), ast.GtE: "(leb OP %s %s)" % (y, x),
+                 ast.Eq: "(eqb OP %s %s)" % (x, y), ast.NotEq: "(negb (eqb OP %s %s))" % (x, y)}
             if type(op) in m:
                 return m[type(op)]
         _fail(n, "comparison %s on %s,%s" % (type(op).__name__, a[1], b[1]))
@@ -246,32 +247,32 @@ class Fn:
             if args[0][1] == 'Z' and args[1][1] == 'Z':
                 return ("(Z.%s %s %s)" % (name, args[0][0], args[1][0]), 'Z')
             self.uses_T = True
-            return ("(f%s O %s %s)" % (name, self.promote(n, args[0], 'F'), self.promote(n, args[1], 'F')), 'F')
+            return ("(f%s OP %s %s)" % (name, self.promote(n, args[0], 'F'), self.promote(n, args[1], 'F')), 'F')
         if name == "abs" and len(args) == 1:
             if args[0][1] == 'Z':
                 return ("(Z.abs %s)" % args[0][0], 'Z')
             self.uses_T = True
-            return ("(absf O %s)" % args[0][0], 'F')
+            return ("(absf OP %s)" % args[0][0], 'F')
         if name in ("math.floor", "np.floor") and len(args) == 1:
             if args[0][1] == 'Z':
                 return args[0]
             self.uses_T = True
-            return ("(floorZ O %s)" % args[0][0], 'Z')
+            return ("(floorZ OP %s)" % args[0][0], 'Z')
         if name in ("math.ceil", "np.ceil") and len(args) == 1:
             if args[0][1] == 'Z':
                 return args[0]
             self.uses_T = True
-            return ("(ceilZ O %s)" % args[0][0], 'Z')
+            return ("(ceilZ OP %s)" % args[0][0], 'Z')
         if name == "round" and len(args) == 1:
             if args[0][1] == 'Z':
                 return args[0]
             self.uses_T = True
-            return ("(rintZ O %s)" % args[0][0], 'Z')
+            return ("(rintZ OP %s)" % args[0][0], 'Z')
         if name == "int" and len(args) == 1:
             if args[0][1] == 'Z':
                 return args[0]
             self.uses_T = True
-            return ("(truncZ O %s)" % args[0][0], 'Z')
+            return ("(truncZ OP %s)" % args[0][0], 'Z')
         if name == "float" and len(args) == 1:
             self.uses_T = True
             return (self.promote(n, args[0], 'F'), 'F')
@@ -539,7 +540,7 @@ def translate_module(repo, modname, mod):
                                                              fdef.end_lineno, digest, text))
         any_T = any_T or fn.uses_T or spec.get("generic")
     if any_T:
-        out.append("Section Gen.\nContext {T : Type} (O : ops T).\n")
+        out.append("Section Gen.\nContext {T : Type} (OP : ops T).\n")
     out.extend(defs)
     if any_T:
         out.append("End Gen.")
@@ -548,10 +549,10 @@ def translate_module(repo, modname, mod):
 
 if __name__ == "__main__":
     import json
-    repo, specfile, name = sys.argv[1:4]
-    specs = json.load(open(specfile))
+    repo, specfile = sys.argv[1:3]
+    name = os.path.basename(specfile)[:-5]
     try:
-        sys.stdout.write(translate_module(repo, name, specs[name]))
+        sys.stdout.write(translate_module(repo, name, json.load(open(specfile))))
     except Untranslatable as e:
         sys.stderr.write("UNTRANSLATABLE %s\n" % e)
         sys.exit(3)
